@@ -107,7 +107,7 @@ var c07weights = InputWeights{Corpus: 2, Valid: 4, ICCDamaged: 2, Damaged: 4, Ra
 func (c07) Run(t *tape.Tape, st *Stats) *Violation {
 	var in Input
 	var loader Loader
-	cfgFault := 0 // 0 none, 1 truncation, 2 sticky error alone, 3 sticky error with data, 4 transient error
+	cfgFault := 0 // 0 none, 1 truncation, 2 sticky error alone, 3 sticky error with data, 4 transient error, 5 source panics once
 	faultOff := 0
 	if t.Draw(2) == 0 {
 		// enumerated layout: file, loader, fault kind, offset
@@ -120,7 +120,7 @@ func (c07) Run(t *tape.Tape, st *Stats) *Violation {
 	} else {
 		in = DrawInput(t, c07weights, []int{1, 300, 5000, 70000})
 		loader = Loaders[t.Intn(len(Loaders))]
-		cfgFault = t.Pick(3, 2, 2, 2, 2)
+		cfgFault = t.Pick(3, 2, 2, 2, 2, 1)
 		switch t.Pick(2, 1, 1) {
 		case 0:
 			faultOff = t.Intn(len(in.Data) + 1)
@@ -140,6 +140,11 @@ func (c07) Run(t *tape.Tape, st *Stats) *Violation {
 	switch cfgFault {
 	case 1:
 		cfg.TruncAt = int64(faultOff)
+	case 5:
+		// the source panics once at this offset (with an error, a string or a
+		// struct as panic value) and behaves afterwards: no loader may let the
+		// panic out, and the stream must still replay everything
+		cfg.PanicArmed, cfg.PanicAt, cfg.PanicKind = true, int64(faultOff), t.Intn(3)
 	case 2, 3, 4:
 		cfg.ErrAt = int64(faultOff)
 		cfg.ErrSticky = cfgFault != 4
@@ -152,6 +157,7 @@ func (c07) Run(t *tape.Tape, st *Stats) *Violation {
 	res := SafeLoad(loader, src)
 	duringLoad := src.Delivered
 	errDuringLoad := src.ErrFired
+	panicDuringLoad := src.PanicFired
 	// multi-step history: in a third of the runs another Load (any loader, any
 	// input) happens between this Load and the reading of its stream, and the
 	// other stream is read first in half of those: a returned stream must not
@@ -216,7 +222,8 @@ func (c07) Run(t *tape.Tape, st *Stats) *Violation {
 	st.Probe("error_during_replay", src.ErrFired > errDuringLoad)
 	st.Probe("load_succeeded", res.Err == nil && res.MD != nil)
 	st.Probe("load_failed_midway", res.Err != nil && duringLoad > 0)
-	faultFired := cfgFault == 0 || src.ErrFired > 0 || src.TruncFired()
+	st.Fault("source_panics_once", cfg.PanicArmed, src.PanicFired > 0)
+	faultFired := cfgFault == 0 || src.ErrFired > 0 || src.TruncFired() || src.PanicFired > 0
 	if duringLoad > 0 && faultFired {
 		st.Mark(tape.Mix(tape.HashString(in.Desc), uint64(len(in.Data)), tape.HashString(loader.Name), uint64(cfgFault), uint64(faultOff), src.LogHash, uint64(cons.Policy), uint64(cons.K)))
 	}
@@ -252,6 +259,13 @@ func (c07) Run(t *tape.Tape, st *Stats) *Violation {
 	}
 	if res.Stream == nil {
 		return fail("nil-stream", "Load returned a nil stream")
+	}
+	if got.Panic != nil && src.PanicFired > panicDuringLoad {
+		// the source itself panicked while the caller was reading the stream:
+		// that is the caller's reader misbehaving, not the loader; nothing more
+		// can be said about this run
+		st.Probe("source_panicked_while_stream_was_read", true)
+		return nil
 	}
 	if got.Panic != nil {
 		return fail("panic", fmt.Sprintf("reading the returned stream panicked: %v", got.Panic))
